@@ -653,9 +653,13 @@ func mergeScrapeStatus(a, b map[uint64]*target.ScrapeStatus) map[uint64]*target.
 
 		if (old.Health != scrape.HealthGood && v.Health == scrape.HealthGood) ||
 			(v.Health == scrape.HealthGood && v.Series > old.Series) {
+			// replace the entry instead of overwriting it in place: "old" may be the
+			// explorer's own status object, shared with every other replica and cycle
 			sd := old.Shards
-			*old = *v
-			old.Shards = sd
+			nv := *v
+			nv.Shards = sd
+			old = &nv
+			a[k] = old
 		}
 		old.Shards = append(old.Shards, v.Shards...)
 	}
